@@ -254,6 +254,12 @@ class Elab:
                 elif k == "adiabatic":
                     Tp, al, cp = m.get("potential mantle temperature", -1), m.get("thermal expansion coefficient", -1), m.get("specific heat", -1)
                     ts.append("STAdiabatic (%s, %s, %s, %s, %s, %s)" % (mn, mx, o, ml(self.Tp if Tp < 0 else Tp), ml(self.alpha if al < 0 else al), ml(self.cp if cp < 0 else cp)))
+                elif k == "plate model" and not fault:
+                    al, cp = m.get("thermal expansion coefficient", -1), m.get("specific heat", -1)
+                    Tp = self.Tp if self.Tp >= 0 else m.get("potential mantle temperature", -1)
+                    ts.append("STPlate (%s, %s, %s, %s, %s, %s, %s, %s, %s, %s)" % (
+                        mn, mx, o, ml(m.get("density", 3300)), ml(m["plate velocity"]), ml(m.get("thermal conductivity", 2.0)),
+                        ml(self.alpha if al < 0 else al), ml(self.cp if cp < 0 else cp), "true" if m.get("adiabatic heating", True) else "false", ml(Tp)))
                 else:
                     self.unsupported = "slab/fault temperature model " + k
             arms.append("KTemp -> Some (MTemp %s)" % mlist(ts))
